@@ -48,6 +48,11 @@
 (*             (and of onboarding) that the second run was not to write    *)
 (*             to, before and after it; verify_prev, printed_prev: the     *)
 (*             verify command on the first run's file, after the second    *)
+(*   tz        the time zone of the machine the verify command ran on       *)
+(*   when_who, when_kind   the certificate of the SGX chain one edge of     *)
+(*             whose validity period lies within hours of the clock, and    *)
+(*             which ("far": none); expired1h / notyet1h are out of period  *)
+(*             (then alt = "period": the chain must be refused)             *)
 (*   digsite, digclass   which digest of the genuine device was ground to   *)
 (*             which class (z1 / z2: ends in one / two zero bytes, lz:     *)
 (*             starts with one, sp / nl: ends in a blank / line feed)      *)
@@ -114,6 +119,9 @@ ShapeClasses == {a \o "/" \o b : a \in CompClasses, b \in CompClasses}
 WellFormedP(o) ==
     /\ o.plat \in {"ledger", "sgx"}
     /\ o.hist \in {"single", "reattest", "inplace", "sameout", "reuse0", "two"}
+    /\ o.tz \in {"UTC0", "PST8", "JST-9", "<+14>-14", "<-12>12"}
+    /\ o.when_kind \in {"far", "issued1h", "expires1h", "expired1h", "notyet1h"}
+    /\ (o.when_kind \in {"expired1h", "notyet1h"}) => o.alt # "none"      \* out of period is not genuine
     /\ o.sigclass \in (ShapeClasses \cup {"any"})
     /\ o.digclass \in {"ord", "z1", "z2", "lz", "sp", "nl"} /\ ((o.digsite = "none") <=> (o.digclass = "ord"))
     /\ ((o.sigsite = "none") <=> (o.sigclass = "any"))
@@ -184,7 +192,8 @@ FirstRunGathersP(o) == (o.hist # "single" /\ o.g_onboard # "fail") => o.prev_ok 
 \* earlier files stay as they were
 EarlierKeptP(o) == o.earlier_after = o.earlier_before
 \* and the first run's own file still verifies with the values of THAT run
-PrevKeptP(o) == (o.hist \in {"reattest", "reuse0", "two"} /\ o.gather = "ok" /\ o.alt # "root") =>
+\* (a wrong root of trust or an out-of-period chain certificate spoil the first run's file as well)
+PrevKeptP(o) == (o.hist \in {"reattest", "reuse0", "two"} /\ o.gather = "ok" /\ o.alt \notin {"root", "period"}) =>
                    (o.verify_prev = "ok" /\ Printed(o.printed_prev) = Expect(o.dev_prev))
 
 Clauses(o) == <<
